@@ -103,15 +103,28 @@ Delete ==
   /\ UNCHANGED <<run, cached, served, shown, nkeys, adv>>
   /\ act' = [n |-> "Delete"]
 
-Next == StartCached \/ StartUncached \/ Stop \/ Delete \/ (\E k \in {"script", "reprint"} : Advert(k))
+(* While this program runs, another instance (or the operator) replaces the *)
+(* cache file with one holding a new key pair.  The running listener keeps  *)
+(* the identity it started with: what it serves and what it advertises do   *)
+(* not change.                                                              *)
+Rotate ==
+  /\ Step /\ run = "running" /\ fst = "intact" /\ nkeys < MaxKeys
+  /\ nkeys' = nkeys + 1 /\ fkey' = nkeys + 1 /\ fileId' = fileId + 1
+  /\ UNCHANGED <<fst, fcls, run, cached, served, shown, adv>>
+  /\ act' = [n |-> "Rotate"]
+
+Next == Rotate \/ StartCached \/ StartUncached \/ Stop \/ Delete \/ (\E k \in {"script", "reprint"} : Advert(k))
         \/ (\E cl \in CutClasses : Crash(cl)) \/ (\E cl \in DamageClasses : Damage(cl))
 Spec == Init /\ [][Next]_vars
 
 -----------------------------------------------------------------------------
 (* C08 *)
-StableKey == (run = "running" /\ cached /\ fst = "intact") => served = fkey
+(* a run that starts on an intact cache presents the key in it (a file replaced *)
+(* under a running listener does not change that listener)                    *)
+StableKey == [][(act'.n = "Start" /\ act'.c /\ fst = "intact") => served' = fkey]_vars
 TornNeverSilentlyDifferent ==
-  (run = "running" /\ cached /\ fst \in {"torn", "damaged"}) => served = fkey
+  [][(act'.n = "Start" /\ act'.c /\ fst \in {"torn", "damaged"} /\ run' = "running") => served' = fkey]_vars
+ServedNeverChangesDuringARun == [][(run = "running" /\ run' = "running" /\ act'.n # "Start") => served' = served]_vars
 NeverRewritten ==
   [][(act'.n = "Start" /\ fst # "absent") => (fileId' = fileId /\ fst' = fst /\ fkey' = fkey)]_vars
 MissingRegenerates ==
